@@ -130,6 +130,21 @@ struct BatchResult {
     samples: Vec<Value>,
 }
 
+/// top-level members of a definition body: a line at indent 4 starts a member, deeper lines and closing braces belong to it
+fn top_level_chunks(body: &str) -> Vec<String> {
+    let mut out: Vec<String> = Vec::new();
+    for l in body.lines() {
+        let starts = l.starts_with("    ") && !l.starts_with("     ") && !l.trim_start().starts_with('}');
+        if starts || out.is_empty() {
+            out.push(String::new());
+        }
+        let last = out.last_mut().unwrap();
+        last.push_str(l);
+        last.push('\n');
+    }
+    out
+}
+
 fn norm_msg(m: &str) -> String {
     // identifiers of the generated program are random: replace quoted names and numbers
     let mut out = String::new();
@@ -499,6 +514,7 @@ pub fn run(tier: Tier, replay: Option<String>) -> i32 {
     let results: Vec<BatchResult> = pool.install(|| plan.par_iter().map(|b| run_batch(&bin, &u, &hs, b, rayon::current_thread_index().unwrap_or(0), runs, seed)).collect());
     let mut reported = BTreeSet::new();
     let mut programs = 0;
+    let mut reductions_left = 2;
     for r in results {
         programs += r.programs;
         c.evals(r.frames);
@@ -514,8 +530,42 @@ pub fn run(tier: Tier, replay: Option<String>) -> i32 {
         for w in &r.inconclusive {
             c.inconclusive(w);
         }
-        for (sig, what, detail) in r.failures {
+        for (sig, what, mut detail) in r.failures {
             if reported.insert(sig.clone()) {
+                // shrink a random definition (not a directed case) by deleting top-level members while the
+                // same failure remains; each attempt is a generator run + build, so only a few failures get it
+                if detail["case"].is_null() && detail["members"].is_string() && reductions_left > 0 && !c.known.has("C07", &sig) {
+                    reductions_left -= 1;
+                    let host = detail["host_message"].as_str().unwrap_or("").to_string();
+                    if let Some(hi) = hs.iter().position(|h| h.name == host) {
+                        let aux: Vec<String> = detail["definitions"].as_array().cloned().unwrap_or_default().iter().filter_map(|x| x.as_str().map(|s| s.to_string())).collect();
+                        let mut body = detail["members"].as_str().unwrap_or("").to_string();
+                        let still_fails = |body: &str| -> bool {
+                            let r = run_batch(&bin, &u, &hs, &[(hi, vec![], Some(Case { name: "reduction".into(), body: body.to_string(), aux: aux.clone() }))], 0, runs, seed);
+                            r.failures.iter().any(|(s2, _, _)| s2.replace("case:reduction:", "").split(':').take(3).collect::<Vec<_>>() == sig.split(':').take(3).collect::<Vec<_>>())
+                        };
+                        let mut budget = 10;
+                        let mut progress = true;
+                        while progress && budget > 0 {
+                            progress = false;
+                            let chunks = top_level_chunks(&body);
+                            for k in (0..chunks.len()).rev() {
+                                if budget == 0 || chunks.len() <= 1 {
+                                    break;
+                                }
+                                budget -= 1;
+                                let cand: String = chunks.iter().enumerate().filter(|(i, _)| *i != k).map(|(_, s)| s.as_str()).collect();
+                                if still_fails(&cand) {
+                                    body = cand;
+                                    progress = true;
+                                    break;
+                                }
+                            }
+                        }
+                        detail["reduced_members"] = json!(body);
+                        detail["replay_hint"] = json!("set use_text=true and members=reduced_members to replay the reduced definition");
+                    }
+                }
                 c.fail(&sig, &what, detail);
             }
         }
